@@ -77,6 +77,15 @@ def base_image(c, kind):
         if 'link' in kind:
             call(c, iso, 'add_hard_link', iso_old_path='/BOOT.;1', iso_new_path='/BOOTLNK.;1')
         return iso
+    if kind == 'rr-deep7-rr_moved-taken':
+        # seven nested directories, and a FILE in the root whose Rock Ridge name is the one the holding directory would get
+        iso = base_image(c, 'rr')
+        call(c, iso, 'add_fp', data_file(c, b'user'), 4, iso_path='/X.;1', rr_name='rr_moved')
+        p = ''
+        for i in range(1, 8):
+            p += '/D%d' % i
+            call(c, iso, 'add_directory', iso_path=p, rr_name='d%d' % i)
+        return iso
     if kind.endswith('+sub'):
         # the directory holds one file in every namespace
         iso = base_image(c, kind[:-4])
